@@ -105,8 +105,8 @@ type Profile struct {
 	MinIDs    int
 }
 
-var validKinds = []string{"star", "star", "comb", "sliver", "angle", "rectholes", "spiky", "spiky", "grow", "grow", "border", "angle"}
-var allKinds = []string{"star", "comb", "sliver", "angle", "rectholes", "spiky", "grow", "junk", "junk", "motif", "motif", "border"}
+var validKinds = []string{"star", "star", "comb", "sliver", "angle", "rectholes", "spiky", "spiky", "grow", "grow", "border", "angle", "moat"}
+var allKinds = []string{"star", "comb", "sliver", "angle", "rectholes", "spiky", "grow", "junk", "junk", "motif", "motif", "border", "moat"}
 
 // genSnapCase draws one case; returns nil (and the reason) when the draw has to be skipped.
 func genSnapCase(rng *fw.Rng, pr *Profile) (*SnapCase, string) {
